@@ -84,7 +84,21 @@ theorem cleanup_prePoll {s0 t : State} (h0 : Inv11 s0) (hP : Prog s0 [] t)
         intro i hi k hk _ _
         obtain ⟨e1, e2⟩ := ae.regs i hi k hk
         cases ha : t.added.get k with
-        | none => exact e2 ha
+        | none =>
+          cases hcr : t.creating.has k with
+          | false => exact e2 ha hcr
+          | true =>
+            -- a new object that was stored already: out of the cache, hence disowned
+            right
+            rcases ae.clean.2.oid i with h1 | h1
+            · exfalso
+              have hoid : ((connAbort t).objs i).oid = some k := by rw [h1]; exact hk
+              have hkn := ae.clean.1.known i k hoid
+              simp only [List.not_mem_nil, or_false] at hkn
+              rcases hkn with h2 | h2
+              · rw [ae.uncached k hcr] at h2; cases h2
+              · rw [hYadd k] at h2; cases h2
+            · exact h1.1
         | some j' =>
           have := hS.inj j' i k (hS.addedS k j' ha).1 hk
           subst this
@@ -132,9 +146,12 @@ theorem cleanup_prePoll {s0 t : State} (h0 : Inv11 s0) (hP : Prog s0 [] t)
         have hkn := te.clean.1.known i k hoid
         simp only [List.not_mem_nil, or_false, te.addedNil, Map.get_nil] at hkn
         rcases hkn with hkn | hkn
-        · rcases hm with hm | hm
-          · exact te.modGhost k hm i hkn
-          · rw [te.uncached k hm] at hkn; cases hkn
+        · cases hcr : t.creating.has k with
+          | true => rw [te.uncached k hcr] at hkn; cases hkn
+          | false =>
+            rcases hm with hm | hm
+            · exact te.modGhost k hm hcr i hkn
+            · rw [hcr] at hm; cases hm
         · cases hkn
   obtain ⟨e1, e2, e3, e4, e5, e6, e7, e8, e9, e10, e11⟩ := eff
   generalize cleanup v t = X at *
@@ -804,7 +821,9 @@ theorem abortOne_begun (s : State) (i) : (abortOne s i).begun = s.begun := by
   · rfl
   · split
     · rfl
-    · exact invalidate_begun _ _
+    · split
+      · rfl
+      · exact invalidate_begun _ _
 
 theorem abortObjs_begun (s : State) : (abortObjs s).begun = s.begun :=
   foldl_frame (fun t => t.begun) abortOne abortOne_begun _ s
